@@ -77,6 +77,12 @@ structure Cfg where
   against) and in the message server (whose result receives the portfolio) -/
   toParseVB : String
   toParseSrv : String
+  /-- genesis export (`IterateMigrateRecords` as called by `ExportGenesis`): the value flag whose records the walk skips,
+  and whether the walk can stop before the last record -/
+  gExportSkip : String
+  gExportStop : Bool
+  /-- genesis import: `InitGenesis` calls `SetMigrateRecord(record.From, record.To)` for every exported record -/
+  gImportSets : Bool
   deriving Repr, DecidableEq
 
 /-- the far-future bound that makes `NewPrefixUntilPairRange` cover every queue entry -/
@@ -122,7 +128,10 @@ def cfg : Cfg :=
     qByDelegator := Gen.C14.queueLoops.map (fun l => l.2.2.1) ==
                       ["UBDQueue[i].DelegatorAddress == from.String()", "redQueue[i].DelegatorAddress == from.String()"]
     toParseVB := (Gen.C14.toParseSites.lookup "ValidateBasic").getD ""
-    toParseSrv := (Gen.C14.toParseSites.lookup "MigrateAccount").getD "" }
+    toParseSrv := (Gen.C14.toParseSites.lookup "MigrateAccount").getD ""
+    gExportSkip := Gen.C14.genesisExportSkip
+    gExportStop := !(Gen.C14.genesisExportShape == ["From=key", "To=value", "append", "return false"])
+    gImportSets := Gen.C14.genesisImportCalls == ["SetMigrateRecord(record.From,record.To)"] }
 
 /-! ## state -/
 def bondedPool : Addr := 901
@@ -442,6 +451,44 @@ def govRefuses (c : Cfg) (s : State) (frm to : Addr) : Bool :=
   (s.inactiveQ.filter (fun p => inBound p.1)).any (fun p => depositCb c s frm to p.2) ||
   (s.activeQ.filter (fun p => inBound p.1)).any (fun p => voteCb c s frm to p.2)
 
+/-! ### the gov callbacks as regenerated check lists
+
+`Gen.C14.govDepositChecks` / `govVoteChecks` list what `DepositPeriodCallback` / `VotePeriodCallback` refuse, in source order
+(`deposit-callback`: the vote callback first runs the deposit callback).  `depositCbP` / `voteCbP` / `govRefusesP` INTERPRET the
+lists (the driver runs them); `Props.C14.gov_program_as_modelled` proves them equal to `govRefuses`. -/
+inductive GChk where
+  | proposerFrom | proposerTo | depositFrom | depositTo | voteFrom | voteTo | depositCallback | unknown
+  deriving Repr, DecidableEq
+
+def parseG (chk : String) : GChk :=
+  ([("proposer-from", GChk.proposerFrom), ("proposer-to", .proposerTo), ("deposit-from", .depositFrom),
+    ("deposit-to", .depositTo), ("vote-from", .voteFrom), ("vote-to", .voteTo),
+    ("deposit-callback", .depositCallback)].lookup chk).getD .unknown
+
+def govCheck (s : State) (frm to : Addr) (id : Nat) (pr : Proposal) : GChk → Bool
+  | .proposerFrom => pr.proposer == frm
+  | .proposerTo => pr.proposer == to
+  | .depositFrom => (get s.deposits (id, frm)).isSome
+  | .depositTo => (get s.deposits (id, to)).isSome
+  | .voteFrom => s.votes.contains (id, frm)
+  | .voteTo => s.votes.contains (id, to)
+  | _ => false
+
+def depositCbP (dep : List GChk) (s : State) (frm to : Addr) (id : Nat) : Bool :=
+  match get s.props id with
+  | none => true
+  | some pr => dep.any (govCheck s frm to id pr)
+
+def voteCbP (dep vote : List GChk) (s : State) (frm to : Addr) (id : Nat) : Bool :=
+  match get s.props id with
+  | none => true
+  | some pr => vote.any (fun chk => if chk = .depositCallback then dep.any (govCheck s frm to id pr) else govCheck s frm to id pr chk)
+
+def govRefusesP (c : Cfg) (dep vote : List GChk) (s : State) (frm to : Addr) : Bool :=
+  let inBound (t : Time) : Bool := c.govScanAll || t ≤ s.now
+  (s.inactiveQ.filter (fun p => inBound p.1)).any (fun p => depositCbP dep s frm to p.2) ||
+  (s.activeQ.filter (fun p => inBound p.1)).any (fun p => voteCbP dep vote s frm to p.2)
+
 /-- `DistrStakingMigrate.Validate` -/
 def stakingValidate (c : Cfg) (s : State) (frm to : Addr) : Option MErr :=
   if c.checkOperator && (s.vals.contains frm || s.vals.contains to) then some .validator
@@ -518,6 +565,171 @@ def stakingExecute (c : Cfg) (s : State) (frm to : Addr) : State :=
   let s2 := ((visible s1.ubds).filter (fun p => p.1.1 == frm)).foldl (moveUbd c frm to) s1
   ((visible s2.reds).filter (fun p => p.1.1 == frm)).foldl (moveRed c frm to) s2
 
+/-! ### `DistrStakingMigrate.Execute` as a program
+
+`Gen.C14.executeProgram` lists, per iterator loop of `Execute` (`del` / `ubd` / `red`) and per entry loop inside it
+(`.entry`), every store statement in source order.  `parseX` recognises a statement by its exact key constructor and
+argument list (a statement it does not know is `unknown` and does nothing); `moveDelegationP` / `moveUbdP` / `moveRedP`
+INTERPRET the statement lists.  The driver runs this interpretation (`stakingExecuteP`); `moveDelegation` / `moveUbd` /
+`moveRed` above are the hand-written reading the theorems are about, and `Props.C14.execute_program_as_modelled` proves
+the two equal for the statements as they are in the source now. -/
+
+inductive Who where
+  | frm | to
+  deriving Repr, DecidableEq
+
+inductive XStmt where
+  /-- `startingInfo := distrStore.Get(GetDelegatorStartingInfoKey(validator, w))` / `Delete` of that key / `Set` of that
+  key to the value read -/
+  | siGet (w : Who) | siDel (w : Who) | siSet (w : Who)
+  /-- `Delete` of the record under delegator `w` (for the source: the iterator's key) / `Set` of the record, relabelled to
+  `w`, under delegator `w` -/
+  | recDel (w : Who) | recSet (w : Who)
+  /-- `Delete` / `Set` of a by-validator index element of `w` (0: delegations-by-validator / unbonding-by-validator /
+  redelegations-by-source-validator, 1: redelegations-by-destination-validator) -/
+  | idxDel (i : Nat) (w : Who) | idxSet (i : Nat) (w : Who)
+  /-- per entry: the unbonding-id index is pointed at the record key under `w` -/
+  | idSet (w : Who)
+  /-- per entry: the time slice of the entry's completion time is read, renamed where the condition holds, written back -/
+  | queue
+  | unknown
+  deriving Repr, DecidableEq
+
+abbrev XRaw := String × String × String × String × String × String
+
+/-- the statements the model knows, by scope, operation, store, key constructor, arguments and value -/
+def xTable : List (XRaw × XStmt) := [
+  (("del", "Get", "distrStore", "GetDelegatorStartingInfoKey", "validatorAddr,from", "startingInfo"), .siGet .frm),
+  (("del", "Get", "distrStore", "GetDelegatorStartingInfoKey", "validatorAddr,to.Bytes()", "startingInfo"), .siGet .to),
+  (("del", "Delete", "distrStore", "GetDelegatorStartingInfoKey", "validatorAddr,from", ""), .siDel .frm),
+  (("del", "Delete", "distrStore", "GetDelegatorStartingInfoKey", "validatorAddr,to.Bytes()", ""), .siDel .to),
+  (("del", "Set", "distrStore", "GetDelegatorStartingInfoKey", "validatorAddr,from", "startingInfo"), .siSet .frm),
+  (("del", "Set", "distrStore", "GetDelegatorStartingInfoKey", "validatorAddr,to.Bytes()", "startingInfo"), .siSet .to),
+  (("del", "Delete", "stakingStore", "iter", "del", ""), .recDel .frm),
+  (("del", "Delete", "stakingStore", "GetDelegationKey", "from,validatorAddr", ""), .recDel .frm),
+  (("del", "Delete", "stakingStore", "GetDelegationKey", "to.Bytes(),validatorAddr", ""), .recDel .to),
+  (("del", "Set", "stakingStore", "GetDelegationKey", "to.Bytes(),validatorAddr", "record:to"), .recSet .to),
+  (("del", "Set", "stakingStore", "GetDelegationKey", "from,validatorAddr", "record:from"), .recSet .frm),
+  (("del", "Delete", "stakingStore", "GetDelegationsByValKey", "validatorAddr,from", ""), .idxDel 0 .frm),
+  (("del", "Delete", "stakingStore", "GetDelegationsByValKey", "validatorAddr,to.Bytes()", ""), .idxDel 0 .to),
+  (("del", "Set", "stakingStore", "GetDelegationsByValKey", "validatorAddr,from", "empty"), .idxSet 0 .frm),
+  (("del", "Set", "stakingStore", "GetDelegationsByValKey", "validatorAddr,to.Bytes()", "empty"), .idxSet 0 .to),
+  (("ubd", "Delete", "stakingStore", "iter", "ubd", ""), .recDel .frm),
+  (("ubd", "Delete", "stakingStore", "GetUBDKey", "from,valAddr", ""), .recDel .frm),
+  (("ubd", "Delete", "stakingStore", "GetUBDKey", "to.Bytes(),valAddr", ""), .recDel .to),
+  (("ubd", "Set", "stakingStore", "GetUBDKey", "to.Bytes(),valAddr", "record:to"), .recSet .to),
+  (("ubd", "Set", "stakingStore", "GetUBDKey", "from,valAddr", "record:from"), .recSet .frm),
+  (("ubd", "Delete", "stakingStore", "GetUBDByValIndexKey", "from,valAddr", ""), .idxDel 0 .frm),
+  (("ubd", "Delete", "stakingStore", "GetUBDByValIndexKey", "to.Bytes(),valAddr", ""), .idxDel 0 .to),
+  (("ubd", "Set", "stakingStore", "GetUBDByValIndexKey", "from,valAddr", "empty"), .idxSet 0 .frm),
+  (("ubd", "Set", "stakingStore", "GetUBDByValIndexKey", "to.Bytes(),valAddr", "empty"), .idxSet 0 .to),
+  (("ubd.entry", "Set", "stakingStore", "GetUnbondingIndexKey", "entry.UnbondingId", "GetUBDKey(to.Bytes(),valAddr)"), .idSet .to),
+  (("ubd.entry", "Set", "stakingStore", "GetUnbondingIndexKey", "entry.UnbondingId", "GetUBDKey(from,valAddr)"), .idSet .frm),
+  (("ubd.entry", "Queue", "stakingKeeper", "GetUBDQueueTimeSlice", "entry.CompletionTime",
+    "GetUnbondingDelegationTimeKey(entry.CompletionTime)"), .queue),
+  (("red", "Delete", "stakingStore", "iter", "red", ""), .recDel .frm),
+  (("red", "Delete", "stakingStore", "GetREDKey", "from,valSrcAddr,valDstAddr", ""), .recDel .frm),
+  (("red", "Delete", "stakingStore", "GetREDKey", "to.Bytes(),valSrcAddr,valDstAddr", ""), .recDel .to),
+  (("red", "Set", "stakingStore", "GetREDKey", "to.Bytes(),valSrcAddr,valDstAddr", "record:to"), .recSet .to),
+  (("red", "Set", "stakingStore", "GetREDKey", "from,valSrcAddr,valDstAddr", "record:from"), .recSet .frm),
+  (("red", "Delete", "stakingStore", "GetREDByValSrcIndexKey", "from,valSrcAddr,valDstAddr", ""), .idxDel 0 .frm),
+  (("red", "Delete", "stakingStore", "GetREDByValSrcIndexKey", "to.Bytes(),valSrcAddr,valDstAddr", ""), .idxDel 0 .to),
+  (("red", "Set", "stakingStore", "GetREDByValSrcIndexKey", "from,valSrcAddr,valDstAddr", "empty"), .idxSet 0 .frm),
+  (("red", "Set", "stakingStore", "GetREDByValSrcIndexKey", "to.Bytes(),valSrcAddr,valDstAddr", "empty"), .idxSet 0 .to),
+  (("red", "Delete", "stakingStore", "GetREDByValDstIndexKey", "from,valSrcAddr,valDstAddr", ""), .idxDel 1 .frm),
+  (("red", "Delete", "stakingStore", "GetREDByValDstIndexKey", "to.Bytes(),valSrcAddr,valDstAddr", ""), .idxDel 1 .to),
+  (("red", "Set", "stakingStore", "GetREDByValDstIndexKey", "from,valSrcAddr,valDstAddr", "empty"), .idxSet 1 .frm),
+  (("red", "Set", "stakingStore", "GetREDByValDstIndexKey", "to.Bytes(),valSrcAddr,valDstAddr", "empty"), .idxSet 1 .to),
+  (("red.entry", "Set", "stakingStore", "GetUnbondingIndexKey", "entry.UnbondingId", "GetREDKey(to.Bytes(),valSrcAddr,valDstAddr)"), .idSet .to),
+  (("red.entry", "Set", "stakingStore", "GetUnbondingIndexKey", "entry.UnbondingId", "GetREDKey(from,valSrcAddr,valDstAddr)"), .idSet .frm),
+  (("red.entry", "Queue", "stakingKeeper", "GetRedelegationQueueTimeSlice", "entry.CompletionTime",
+    "GetRedelegationTimeKey(entry.CompletionTime)"), .queue)
+]
+
+def parseX (r : XRaw) : XStmt := (xTable.lookup r).getD .unknown
+
+/-- the statements of one scope, in source order -/
+def progOf (prog : List XRaw) (scope : String) : List XStmt := (prog.filter (fun r => r.1 == scope)).map parseX
+
+def whoAddr (frm to : Addr) : Who → Addr
+  | .frm => frm
+  | .to => to
+
+/-- one statement of the delegation loop; the second component is the local variable `startingInfo` -/
+def delStmt (frm to : Addr) (v : Val) (sh : Nat) (a : State × Option (Nat × Nat)) : XStmt → State × Option (Nat × Nat)
+  | .siGet w => (a.1, get a.1.startInfo (v, whoAddr frm to w))
+  | .siDel w => ({ a.1 with startInfo := del a.1.startInfo (v, whoAddr frm to w) }, a.2)
+  | .siSet w => (match a.2 with
+                 | some x => { a.1 with startInfo := put a.1.startInfo (v, whoAddr frm to w) x }
+                 | none => a.1, a.2)
+  | .recDel w => ({ a.1 with dels := del a.1.dels (whoAddr frm to w, v) }, a.2)
+  | .recSet w => ({ a.1 with dels := put a.1.dels (whoAddr frm to w, v) sh }, a.2)
+  | .idxDel 0 w => ({ a.1 with delIdx := rem a.1.delIdx (v, whoAddr frm to w) }, a.2)
+  | .idxSet 0 w => ({ a.1 with delIdx := ins a.1.delIdx (v, whoAddr frm to w) }, a.2)
+  | _ => a
+
+def moveDelegationP (prog : List XStmt) (frm to : Addr) (s : State) (p : (Addr × Val) × Nat) : State :=
+  (prog.foldl (delStmt frm to p.1.2 p.2) (s, none)).1
+
+def ubdStmt (frm to : Addr) (v : Val) (es : List (Time × Nat × Nat)) (s : State) : XStmt → State
+  | .recDel w => { s with ubds := del s.ubds (whoAddr frm to w, v) }
+  | .recSet w => { s with ubds := put s.ubds (whoAddr frm to w, v) es }
+  | .idxDel 0 w => { s with ubdIdx := rem s.ubdIdx (v, whoAddr frm to w) }
+  | .idxSet 0 w => { s with ubdIdx := ins s.ubdIdx (v, whoAddr frm to w) }
+  | _ => s
+
+/-- the queue statement of the unbonding entry loop for one entry (as in `moveUbd`) -/
+def ubdQueue (c : Cfg) (frm to : Addr) (v : Val) (s : State) (e : Time × Nat × Nat) : State :=
+  let slice := (get s.ubdQ e.1).getD []
+  let ren : Addr × Val → Addr × Val :=
+    if c.qByDelegator then renPair frm to else fun x => if x == (frm, v) then (to, v) else x
+  { s with ubdQ := if slice.any (fun x => x.1 == frm) then setAt s.ubdQ e.1 (slice.map ren) else s.ubdQ }
+
+def ubdEntryStmt (c : Cfg) (frm to : Addr) (v : Val) (first : Option (Time × Nat × Nat)) (e : Time × Nat × Nat)
+    (s : State) : XStmt → State
+  | .idSet w => { s with unbId := put s.unbId e.2.2 (whoAddr frm to w, v, none) }
+  | .queue => if c.qEveryEntry || first == some e then ubdQueue c frm to v s e else s
+  | _ => s
+
+def moveUbdP (c : Cfg) (recProg entryProg : List XStmt) (frm to : Addr) (s : State)
+    (p : (Addr × Val) × List (Time × Nat × Nat)) : State :=
+  let s1 := recProg.foldl (ubdStmt frm to p.1.2 p.2) s
+  p.2.foldl (fun s e => entryProg.foldl (ubdEntryStmt c frm to p.1.2 p.2.head? e) s) s1
+
+def redStmt (frm to : Addr) (src dst : Val) (es : List (Time × Nat × Nat)) (s : State) : XStmt → State
+  | .recDel w => { s with reds := del s.reds (whoAddr frm to w, src, dst) }
+  | .recSet w => { s with reds := put s.reds (whoAddr frm to w, src, dst) es }
+  | .idxDel 0 w => { s with redSrcIdx := rem s.redSrcIdx (src, whoAddr frm to w, dst) }
+  | .idxSet 0 w => { s with redSrcIdx := ins s.redSrcIdx (src, whoAddr frm to w, dst) }
+  | .idxDel 1 w => { s with redDstIdx := rem s.redDstIdx (dst, whoAddr frm to w, src) }
+  | .idxSet 1 w => { s with redDstIdx := ins s.redDstIdx (dst, whoAddr frm to w, src) }
+  | _ => s
+
+def redQueue (c : Cfg) (frm to : Addr) (src dst : Val) (s : State) (e : Time × Nat × Nat) : State :=
+  let slice := (get s.redQ e.1).getD []
+  let ren : Addr × Val × Val → Addr × Val × Val :=
+    if c.qByDelegator then renTriple frm to else fun x => if x == (frm, src, dst) then (to, src, dst) else x
+  { s with redQ := if slice.any (fun x => x.1 == frm) then setAt s.redQ e.1 (slice.map ren) else s.redQ }
+
+def redEntryStmt (c : Cfg) (frm to : Addr) (src dst : Val) (first : Option (Time × Nat × Nat)) (e : Time × Nat × Nat)
+    (s : State) : XStmt → State
+  | .idSet w => { s with unbId := put s.unbId e.2.2 (whoAddr frm to w, src, some dst) }
+  | .queue => if c.qEveryEntry || first == some e then redQueue c frm to src dst s e else s
+  | _ => s
+
+def moveRedP (c : Cfg) (recProg entryProg : List XStmt) (frm to : Addr) (s : State)
+    (p : (Addr × Val × Val) × List (Time × Nat × Nat)) : State :=
+  let s1 := recProg.foldl (redStmt frm to p.1.2.1 p.1.2.2 p.2) s
+  p.2.foldl (fun s e => entryProg.foldl (redEntryStmt c frm to p.1.2.1 p.1.2.2 p.2.head? e) s) s1
+
+/-- `DistrStakingMigrate.Execute` run as the regenerated program -/
+def stakingExecuteP (c : Cfg) (prog : List XRaw) (s : State) (frm to : Addr) : State :=
+  let s1 := ((visible s.dels).filter (fun p => p.1.1 == frm)).foldl (moveDelegationP (progOf prog "del") frm to) s
+  let s2 := ((visible s1.ubds).filter (fun p => p.1.1 == frm)).foldl
+              (moveUbdP c (progOf prog "ubd") (progOf prog "ubd.entry") frm to) s1
+  ((visible s2.reds).filter (fun p => p.1.1 == frm)).foldl
+    (moveRedP c (progOf prog "red") (progOf prog "red.entry") frm to) s2
+
 /-- `Keeper.SetMigrateRecord`: the record under both addresses and the two direction flags, as far as they are written -/
 def setRecord (c : Cfg) (s : State) (frm to : Addr) : State :=
   let r1 := if c.wRecFrom then put s.recs frm (true, to) else s.recs
@@ -577,7 +789,8 @@ def handlerValidate (c : Cfg) (s : State) (frm to : Addr) (ctor : String) : Opti
   let t := handlerType ctor
   if bodyNil (t ++ ".Validate") then none
   else if t == "DistrStakingMigrate" then stakingValidateP Gen.C14.stakingValidateProgram s frm to
-  else if t == "GovMigrate" then (if govRefuses c s frm to then some .gov else none)
+  else if t == "GovMigrate" then
+    (if govRefusesP c (Gen.C14.govDepositChecks.map parseG) (Gen.C14.govVoteChecks.map parseG) s frm to then some .gov else none)
   else none
 
 /-- `Execute` of one registered handler -/
@@ -585,7 +798,7 @@ def handlerExecute (c : Cfg) (frm to : Addr) (s : State) (ctor : String) : Excep
   let t := handlerType ctor
   if bodyNil (t ++ ".Execute") then .ok s
   else if t == "BankMigrate" then (if bankBlocked c s frm then .error .exec else .ok (bankExecute c s frm to))
-  else if t == "DistrStakingMigrate" then .ok (stakingExecute c s frm to)
+  else if t == "DistrStakingMigrate" then .ok (stakingExecuteP c Gen.C14.executeProgram s frm to)
   else .ok s
 
 /-- `for _, m := range k.GetMigrateI() { if err = m.Execute(…); err != nil { return nil, err } }` -/
@@ -621,6 +834,25 @@ def migrateProg (c : Cfg) (stmts hs : List String) (s : State) (frm to : Addr) (
   if frm == to then .error .same else
   if c.sigRequired && !sigOk then .error .sig else
   runStmts c hs frm to s stmts
+
+/-! ### genesis export / import of the migrate module (`x/migrate/keeper/genesis.go`)
+
+`ExportGenesis` walks the record keys (`IterateMigrateRecords`), skips the values carrying one flag and emits (key address,
+value address) for the others; `InitGenesis` calls `SetMigrateRecord` for each exported record on the empty module store. -/
+
+def exportGenesis (c : Cfg) (s : State) : List (Addr × Addr) :=
+  let keep (p : Addr × Bool × Addr) : Bool :=
+    if c.gExportSkip == "ValuePrefixMigrateToFlag" then p.2.1
+    else if c.gExportSkip == "ValuePrefixMigrateFromFlag" then !p.2.1 else true
+  let rs := ((visible s.recs).filter keep).map (fun p => (p.1, p.2.2))
+  if c.gExportStop then rs.take 1 else rs
+
+def initGenesis (c : Cfg) (s : State) (rs : List (Addr × Addr)) : State :=
+  let s0 := { s with recs := [], dirFrom := [], dirTo := [] }
+  if c.gImportSets then rs.foldl (fun s r => setRecord c s r.1 r.2) s0 else s0
+
+/-- a chain restarted from its own exported genesis, as far as the migrate module is concerned -/
+def genesisRoundTrip (c : Cfg) (s : State) : State := initGenesis c s (exportGenesis c s)
 
 /-! ### signature (opaque hash / recover) -/
 /-- bytes signed, in the order the code hashes them (`Gen.C14.signedFields`) -/
@@ -682,7 +914,7 @@ inductive Op where
   | setPeriods (dp vp : Nat)
   | setUnbond (n : Nat)
   | migrate (frm to : Addr) (sigOk : Bool)
-  deriving Repr
+  deriving Repr, DecidableEq
 
 def endBlock (s : State) (dt : Nat) : State :=
   let s1 := govEnd (stakingEnd s)
@@ -726,5 +958,26 @@ def stepP (c : Cfg) (stmts hs : List String) (s : State) : Op → State × Strin
   | op => step c s op
 
 def run (c : Cfg) (s : State) (ops : List Op) : State := ops.foldl (fun s o => (step c s o).1) s
+
+/-! ### a migration delivered as a transaction of a block
+
+`FinalizeBlock` runs, for the transaction, baseapp's `ValidateBasic` (same account, pair signature), then the ante handler
+(the transaction must carry the signature of the source's account key — `txSigner = frm` — and the fee is deducted from
+the source, locked coins excluded), then the message server; a failure of the message server keeps the fee.  The block's
+end blockers follow.  `txOps` is the list of model operations this amounts to. -/
+def feeCollector : Addr := 903
+
+def txOps (c : Cfg) (s : State) (dt fee : Nat) (txSigner frm to : Addr) (sigOk : Bool) : List Op × String :=
+  if frm == to then ([.block dt], "err:same") else
+  if c.sigRequired && !sigOk then ([.block dt], "err:sig") else
+  if txSigner != frm || !(s.hasKey.contains frm) || balOf s.bal frm 0 < lockedOf s frm 0 + fee then ([.block dt], "err:ante") else
+  let s1 := (step c s (.send frm feeCollector 0 fee)).1
+  ([.send frm feeCollector 0 fee, .migrate frm to sigOk, .block dt], (step c s1 (.migrate frm to sigOk)).2)
+
+/-- the block carrying the transaction: state after the block, and the outcome of the transaction -/
+def txBlock (c : Cfg) (stmts hs : List String) (s : State) (dt fee : Nat) (txSigner frm to : Addr) (sigOk : Bool) :
+    State × String :=
+  let (ops, r) := txOps c s dt fee txSigner frm to sigOk
+  (ops.foldl (fun s o => (stepP c stmts hs s o).1) s, r)
 
 end FxVerif.Model.C14
